@@ -1,6 +1,6 @@
 // included by gen.rs — the builder that turns kinds / situations into a Scenario
 
-struct Uni { v0: String, v1: String, v2: String, iv: String, iv2: String, u: String, iu: String, vx: String, lib: Option<(String, String, String)>, vl: Option<String> }
+struct Uni { rich: Vec<String>, rich_anc: BTreeMap<String, BTreeSet<String>>, traps: Vec<(String, String)>, v0: String, v1: String, v2: String, iv: String, iv2: String, u: String, iu: String, vx: String, lib: Option<(String, String, String)>, vl: Option<String> }
 
 struct B<'r> {
     r: &'r mut Rng,
@@ -72,6 +72,74 @@ impl<'r> B<'r> {
         Some(e)
     }
 
+    /// Value types with a hostile hierarchy: interface lists of length 0-4 in every order, redundantly declared
+    /// interfaces (also inherited through the super class or an earlier interface), diamonds, class depth up to 4,
+    /// plus planted shapes where a bound is reachable only after an already visited parent. Returns the types,
+    /// their proper ancestors and the planted (bound, sub type) pairs.
+    fn rich(&mut self) -> (Vec<String>, BTreeMap<String, BTreeSet<String>>, Vec<(String, String)>) {
+        let mut all: Vec<String> = vec![];
+        let mut parents: BTreeMap<String, Vec<String>> = BTreeMap::new();
+        let anc_of = |parents: &BTreeMap<String, Vec<String>>, t: &str| -> BTreeSet<String> {
+            let mut out = BTreeSet::new(); let mut todo = vec![t.to_string()];
+            while let Some(x) = todo.pop() { for p in parents.get(&x).into_iter().flatten() { if out.insert(p.clone()) { todo.push(p.clone()); } } }
+            out
+        };
+        // redundancy: sometimes list, at a random position, a type that is already inherited through the others
+        let redundant = |r: &mut Rng, parents: &BTreeMap<String, Vec<String>>, list: &mut Vec<String>, from: usize| {
+            let mut inh: Vec<String> = vec![]; for p in list.iter() { for a in anc_of(parents, p) { if !list.contains(&a) && !inh.contains(&a) { inh.push(a); } } }
+            if !inh.is_empty() && r.chance(3, 5) { let x = r.pick(&inh).clone(); let at = r.usize_in(from, list.len()); list.insert(at, x); }
+        };
+        let mut itfs: Vec<String> = vec![];
+        for k in 0..self.r.usize_in(3, 6) {
+            let mut pool = itfs.clone(); self.r.shuffle(&mut pool);
+            let mut ps: Vec<String> = pool.into_iter().take(self.r.below(k.min(4) + 1)).collect();
+            redundant(self.r, &parents, &mut ps, 0);
+            let n = self.new_class(true, OBJECT, ps.clone(), true);
+            parents.insert(n.clone(), ps); itfs.push(n.clone()); all.push(n);
+        }
+        let mut sup: Option<String> = None;
+        for _ in 0..self.r.usize_in(1, 4) {
+            let mut pool = itfs.clone(); self.r.shuffle(&mut pool);
+            let mut ps: Vec<String> = pool.into_iter().take(self.r.below(5)).collect();
+            let mut full: Vec<String> = sup.iter().cloned().chain(ps.iter().cloned()).collect();
+            redundant(self.r, &parents, &mut full, sup.iter().count());
+            ps = full[sup.iter().count()..].to_vec();
+            let n = self.new_class(false, sup.as_deref().unwrap_or(OBJECT), ps.clone(), true);
+            parents.insert(n.clone(), full); sup = Some(n.clone()); all.push(n);
+        }
+        // planted shapes
+        let mut traps = vec![];
+        for _ in 0..self.r.usize_in(1, 2) {
+            let i = self.new_class(true, OBJECT, vec![], true);
+            let j = self.new_class(true, OBJECT, vec![], true);
+            parents.insert(i.clone(), vec![]); parents.insert(j.clone(), vec![]);
+            let (sub, extra): (String, Vec<String>) = match self.r.below(4) {
+                0 => { // class A implements I, J; class S extends A implements I
+                    let a = self.new_class(false, OBJECT, vec![i.clone(), j.clone()], true); parents.insert(a.clone(), vec![i.clone(), j.clone()]);
+                    let s = self.new_class(false, &a, vec![i.clone()], true); parents.insert(s.clone(), vec![a.clone(), i.clone()]); (s, vec![a])
+                }
+                1 => { // interface K extends I, J; class C implements I, K
+                    let k = self.new_class(true, OBJECT, vec![i.clone(), j.clone()], true); parents.insert(k.clone(), vec![i.clone(), j.clone()]);
+                    let c = self.new_class(false, OBJECT, vec![i.clone(), k.clone()], true); parents.insert(c.clone(), vec![i.clone(), k.clone()]); (c, vec![k])
+                }
+                2 => { // interface Q extends I; interface R extends I, J; class D implements R, Q  (diamond, bound behind the revisited I)
+                    let q = self.new_class(true, OBJECT, vec![i.clone()], true); parents.insert(q.clone(), vec![i.clone()]);
+                    let rr = self.new_class(true, OBJECT, vec![i.clone(), j.clone()], true); parents.insert(rr.clone(), vec![i.clone(), j.clone()]);
+                    let ps = if self.r.bool() { vec![rr.clone(), q.clone()] } else { vec![q.clone(), rr.clone()] };
+                    let d = self.new_class(false, OBJECT, ps.clone(), true); parents.insert(d.clone(), ps); (d, vec![q, rr])
+                }
+                _ => { // class A implements I; class S extends A implements I, J  (the own list re-declares I before J)
+                    let a = self.new_class(false, OBJECT, vec![i.clone()], true); parents.insert(a.clone(), vec![i.clone()]);
+                    let s = self.new_class(false, &a, vec![i.clone(), j.clone()], true); parents.insert(s.clone(), vec![a.clone(), i.clone(), j.clone()]); (s, vec![a])
+                }
+            };
+            traps.push((j.clone(), sub.clone()));
+            all.push(i); all.push(j); all.push(sub); all.extend(extra);
+        }
+        let anc: BTreeMap<String, BTreeSet<String>> = all.iter().map(|t| (t.clone(), anc_of(&parents, t))).collect();
+        (all, anc, traps)
+    }
+
     fn universe(&mut self, with_lib: bool) {
         let lib = if with_lib {
             let (l0, l1, li) = ("lib/L0".to_string(), "lib/L1".to_string(), "lib/LI".to_string());
@@ -89,7 +157,8 @@ impl<'r> B<'r> {
         let iu = self.new_class(true, OBJECT, vec![], true);
         let vx = self.new_class(false, "java/util/AbstractList", vec![], true);
         let vl = lib.as_ref().map(|(_, l1, _)| { let l1 = l1.clone(); self.new_class(false, &l1, vec![], true) });
-        self.uni = Some(Uni { v0, v1, v2, iv, iv2, u, iu, vx, lib, vl });
+        let (rich, rich_anc, traps) = self.rich();
+        self.uni = Some(Uni { rich, rich_anc, traps, v0, v1, v2, iv, iv2, u, iu, vx, lib, vl });
     }
 
     /// (bridge's type, delegate's type) for one position; None = void
@@ -111,6 +180,17 @@ impl<'r> B<'r> {
             Super1 => { let (a, b) = *r.pick(&[(&u.v0, &u.v1), (&u.v1, &u.v2), (&u.iv2, &u.v1), (&u.iv, &u.iv2)]); s(l(a), l(b)) }
             Super2 => { let (a, b) = *r.pick(&[(&u.v0, &u.v2), (&u.iv, &u.v1), (&u.iv2, &u.v2)]); s(l(a), l(b)) }
             SuperItf => { let (a, b) = *r.pick(&[(&u.iv, &u.v2), (&u.iv2, &u.v1), (&u.iv, &u.v1)]); s(l(a), l(b)) }
+            SuperRich => {
+                let sub: Vec<&String> = u.rich.iter().filter(|t| !u.rich_anc[*t].is_empty()).collect();
+                if !u.traps.is_empty() && r.chance(2, 3) { let (a, b) = r.pick(&u.traps).clone(); s(l(&a), l(&b)) }
+                else if sub.is_empty() { s(l(&u.v0), l(&u.v1)) }
+                else { let t: &String = *r.pick(&sub); let anc: Vec<&String> = u.rich_anc[t].iter().collect(); let a: &String = *r.pick(&anc); s(l(a), l(t)) }
+            }
+            UnrelRich => {
+                let mut found = None;
+                for _ in 0..12 { let a: &String = r.pick(&u.rich); let b: &String = r.pick(&u.rich); if a != b && !u.rich_anc[b].contains(a) { found = Some((a.clone(), b.clone())); break; } }
+                match found { Some((a, b)) => s(l(&a), l(&b)), None => s(l(&u.u), l(&u.v1)) }
+            }
             Unrelated => { let (a, b) = *r.pick(&[(&u.u, &u.v1), (&u.v0, &u.u), (&u.iu, &u.v1), (&u.iv, &u.u), (&u.iu, &u.iv2), (&u.u, &u.v2)]); s(l(a), l(b)) }
             Reversed => { let (a, b) = *r.pick(&[(&u.v1, &u.v0), (&u.v2, &u.v0), (&u.v1, &u.iv), (&u.v2, &u.v1), (&u.iv2, &u.iv)]); s(l(a), l(b)) }
             DelegateObject => s(inj(r), obj),
